@@ -439,7 +439,7 @@ def run(res, tier):
         k += 1
     cases.append(("wide-nx", rand_data(r, nx=1000, ny=1, nb=0, nl=0), {}))
     cases.append(("wide-ny", rand_data(r, nx=2, ny=1000, nb=0, nl=0), {}))
-    cases.append(("wide-both", rand_data(r, nx=1000, ny=1000 if tier == "thorough" else 1000, nb=0, nl=0), {}) if tier == "thorough" else
+    cases.append(("wide-both", rand_data(r, nx=1000, ny=24, nb=0, nl=0), {}) if tier == "thorough" else  # (1000 x 1000 is 80 MB of text for the interpreted driver)
                  ("wide-nx2", rand_data(r, nx=1234, ny=2, nb=0, nl=0), {}))
     cases.append(("nlim-9999", rand_data(r, nx=2, ny=2, nb=3, nl=9999), {}))
     cases.append(("nlim-10000", rand_data(r, nx=2, ny=2, nb=3, nl=10000), {}))
